@@ -4,9 +4,12 @@ package main
 // (kong, the decoders of app/main/decoder.go, FilterArgs.ApplyFilter, service.Filter, SortArgs.ApplySort,
 // the serialiser), printed exactly like coq/Model/SuiteQuery.v.
 //
-//	query-run <y> <m> <d> <sort> <n> <flag_1> ... <flag_n> <hex file>
+//	query-run  <y> <m> <d> <sort> <n> <flag_1> ... <flag_n> <hex file>    klog print --no-style, output parsed back
+//	query-json <y> <m> <d> <sort> <n> <flag_1> ... <flag_n> <hex file>    klog json, output decoded
+//	query-alias <hex tag> <hex file>                                      service.Filter called directly: is the INPUT slice altered?
 
 import (
+	"encoding/json"
 	"os"
 	"path/filepath"
 	"sort"
@@ -16,6 +19,8 @@ import (
 
 	"github.com/jotaen/klog/klog"
 	"github.com/jotaen/klog/klog/parser"
+	kjson "github.com/jotaen/klog/klog/parser/json"
+	"github.com/jotaen/klog/klog/service"
 )
 
 // queryArgs turns the flag tokens of a request (`name` or `name:hex`) into command-line arguments.
@@ -52,48 +57,151 @@ func canonRuns(rs []klog.Record) []string {
 	return lines
 }
 
-func init() {
-	register("query-run", func(a []string) string {
-		y, _ := strconv.Atoi(a[0])
-		m, _ := strconv.Atoi(a[1])
-		d, _ := strconv.Atoi(a[2])
-		sortTok := a[3]
-		n, _ := strconv.Atoi(a[4])
-		flags := a[5 : 5+n]
-		text := argBytes(a[5+n])
+// sortRuns sorts the lines of each maximal run of equal keys.
+func sortRuns(keys []string, lines []string) {
+	i := 0
+	for i < len(lines) {
+		j := i + 1
+		for j < len(lines) && keys[j] == keys[i] {
+			j++
+		}
+		sort.Strings(lines[i:j])
+		i = j
+	}
+}
 
-		dir := scratchDir()
-		defer os.RemoveAll(dir)
-		f := filepath.Join(dir, "in.klg")
-		writeFile(f, text)
-		now := gotime.Date(y, gotime.Month(m), d, 12, 0, 0, 0, gotime.Local)
-		env := &cliEnv{Home: dir, Clock: []gotime.Time{now}, Sticky: true, Env: map[string]string{"NO_COLOR": "1"}, NumCpus: 1}
-		args := append([]string{"print", "--no-style", "--no-warn"}, queryArgs(flags, sortTok)...)
-		args = append(args, f)
-		code, out, errText := runKlog(env, args...)
-		if code != 0 {
-			if strings.HasPrefix(errText, "Invocation error") {
-				return "argerr"
-			}
-			_, _, errs := parser.NewSerialParser().Parse(text)
-			if errs != nil {
-				return "invalid"
-			}
-			return "fail " + strconv.Itoa(code)
+func optInt(p *int) string {
+	if p == nil {
+		return "_"
+	}
+	return strconv.Itoa(*p)
+}
+
+// jsonEntry / jsonRecord: the fields of the JSON output the suite compares.
+type jsonEntry struct {
+	Type      string `json:"type"`
+	Summary   string `json:"summary"`
+	TotalMins int    `json:"total_mins"`
+	StartMins *int   `json:"start_mins"`
+	EndMins   *int   `json:"end_mins"`
+}
+
+type jsonRecord struct {
+	Date            string      `json:"date"`
+	Summary         string      `json:"summary"`
+	ShouldTotalMins int         `json:"should_total_mins"`
+	Entries         []jsonEntry `json:"entries"`
+}
+
+func showJsonRecord(r jsonRecord) string {
+	parts := []string{"J", hx(r.Date), strconv.Itoa(r.ShouldTotalMins), hx(r.Summary), strconv.Itoa(len(r.Entries))}
+	for _, e := range r.Entries {
+		parts = append(parts, strings.Join([]string{e.Type, strconv.Itoa(e.TotalMins), optInt(e.StartMins), optInt(e.EndMins), hx(e.Summary)}, ":"))
+	}
+	return strings.Join(parts, " ")
+}
+
+func runQuery(a []string, asJson bool) string {
+	y, _ := strconv.Atoi(a[0])
+	m, _ := strconv.Atoi(a[1])
+	d, _ := strconv.Atoi(a[2])
+	sortTok := a[3]
+	n, _ := strconv.Atoi(a[4])
+	flags := a[5 : 5+n]
+	text := argBytes(a[5+n])
+	sorted := sortTok != "-" && argBytes(sortTok) != ""
+
+	dir := scratchDir()
+	defer os.RemoveAll(dir)
+	f := filepath.Join(dir, "in.klg")
+	writeFile(f, text)
+	now := gotime.Date(y, gotime.Month(m), d, 12, 0, 0, 0, gotime.Local)
+	env := &cliEnv{Home: dir, Clock: []gotime.Time{now}, Sticky: true, Env: map[string]string{"NO_COLOR": "1"}, NumCpus: 1}
+	args := []string{"print", "--no-style", "--no-warn"}
+	if asJson {
+		args = []string{"json"}
+	}
+	args = append(args, queryArgs(flags, sortTok)...)
+	args = append(args, f)
+	code, out, errText := runKlog(env, args...)
+	if code != 0 {
+		if strings.HasPrefix(errText, "Invocation error") {
+			return "argerr"
 		}
-		// what was printed, read back
-		rs, _, errs := parser.NewSerialParser().Parse(out)
+		if _, _, errs := parser.NewSerialParser().Parse(text); errs != nil {
+			return "invalid"
+		}
+		return "fail " + strconv.Itoa(code)
+	}
+	if asJson {
+		var envelop kjson.Envelop
+		if err := json.Unmarshal([]byte(out), &envelop); err != nil {
+			return "bad-json " + hx(out)
+		}
+		if envelop.Errors != nil {
+			return "invalid"
+		}
+		var doc struct {
+			Records []jsonRecord `json:"records"`
+		}
+		if err := json.Unmarshal([]byte(out), &doc); err != nil {
+			return "bad-json " + hx(out)
+		}
+		keys := make([]string, len(doc.Records))
+		lines := make([]string, len(doc.Records))
+		for i, r := range doc.Records {
+			keys[i] = strings.ReplaceAll(r.Date, "/", "-")
+			lines[i] = showJsonRecord(r)
+		}
+		if sorted {
+			sortRuns(keys, lines)
+		}
+		return strings.Join(append([]string{"ok", strconv.Itoa(len(lines))}, lines...), " ")
+	}
+	// what was printed, read back
+	rs, _, errs := parser.NewSerialParser().Parse(out)
+	if errs != nil {
+		return "reparse-failed " + hx(out)
+	}
+	parts := []string{"ok", strconv.Itoa(len(rs))}
+	if sorted {
+		parts = append(parts, canonRuns(rs)...)
+	} else {
+		for _, r := range rs {
+			parts = append(parts, showRecord(r))
+		}
+	}
+	return strings.Join(parts, " ")
+}
+
+func init() {
+	register("query-run", func(a []string) string { return runQuery(a, false) })
+	register("query-json", func(a []string) string { return runQuery(a, true) })
+	// service.Filter narrows a record with SetEntries on the very object it was given: the caller's slice changes.
+	// Not observable through any klog command (none reads the unfiltered list again); reported as a note.
+	register("query-alias", func(a []string) string {
+		tag, err := klog.NewTagFromString(argBytes(a[0]))
+		if err != nil {
+			return "argerr"
+		}
+		rs, _, errs := parser.NewSerialParser().Parse(argBytes(a[1]))
 		if errs != nil {
-			return "reparse-failed " + hx(out)
+			return "invalid"
 		}
-		parts := []string{"ok", strconv.Itoa(len(rs))}
-		if sortTok != "-" && argBytes(sortTok) != "" {
-			parts = append(parts, canonRuns(rs)...)
-		} else {
-			for _, r := range rs {
-				parts = append(parts, showRecord(r))
+		before := make([]string, len(rs))
+		for i, r := range rs {
+			before[i] = showRecord(r)
+		}
+		out := service.Filter(rs, service.FilterQry{Tags: []klog.Tag{tag}})
+		altered := 0
+		for i, r := range rs {
+			if showRecord(r) != before[i] {
+				altered++
 			}
 		}
-		return strings.Join(parts, " ")
+		if altered > 0 {
+			return "input-altered " + strconv.Itoa(altered) + " of " + strconv.Itoa(len(rs)) + " selected " + strconv.Itoa(len(out))
+		}
+		return "input-intact selected " + strconv.Itoa(len(out))
 	})
 }
